@@ -13,7 +13,7 @@ NA = {
 
 # id -> (claimed?, technique, level text, level note)
 CHECKS = {
-    "C01": (False, "SSA constructor-agreement, aliasing/provenance and cursor-pairing rules (CTOR, CLAMP, RET-SELF, ALIAS, CURSOR-PAIR, PROV)",
+    "C01": (True, "SSA constructor-agreement, aliasing/provenance and cursor-pairing rules (CTOR, CLAMP, RET-SELF, ALIAS, CURSOR-PAIR, PROV)",
             "Necessary structural conditions of lossless tiling: the in-memory constructor initialises the same machine as the streaming one, Source aliases the caller's buffer through a capacity-clamped slice, every prefix cut of the buffer is paired with offset/line/index updates, and offset/line addends derive from unpaddedNullLength/lineCount. Does not decide range ordering or the arithmetic inside the helpers.",
             "go/types + go/ssa; field-based origin abstraction; helper arithmetic trusted"),
     "C04": (False, "SSA latch/provenance proof that Parse's panic is unreachable, definite-divergence and reader-exit loop rules, finite-domain unreachability, lineParser typestate, child-arity backing",
@@ -25,7 +25,7 @@ CHECKS = {
     "C07": (False, "HTML lexer-state typestate + escape taint over every append to the render buffer (HTX-L, HTX-T, HTX-RAW, HTX-EMIT, ESC-SET, VOCAB)",
             "Every byte appended to the output buffer is part of a constant skeleton the HTML lexer accepts as quoted start/end tags with constant names, or dynamic text that passed a sanitiser adequate for its lexical context, or one of two verbatim leaf kinds restricted by the parser (assumption). Holds for all inputs and configurations because the state set carries all configurations.",
             "html.EscapeString and escapeHTML's copy arithmetic trusted as sanitisers; parser invariants on character-reference and soft-break spans assumed"),
-    "C08": (False, "SSA dominance rules on the reader loop: error latch, no read after error, sticky error, read count used unconditionally, same machine, two-pass order",
+    "C08": (True, "SSA dominance rules on the reader loop: error latch, no read after error, sticky error, read count used unconditionally, same machine, two-pass order",
             "Necessary conditions of streaming≡in-memory: the reader is never consulted after it reported an error/EOF, the stored error is never replaced and is what NextBlock returns, bytes returned together with an error are kept, Parse uses NextBlock as its only splitter with the same line-counter initialisation, Extract precedes Rewrite. Tree equality under arbitrary chunking is arithmetic over buffer contents and is not decided.",
             "go/ssa dominators; helper arithmetic trusted"),
     "C10": (False, "per-kind outcome tables of the renderer callbacks (HTX-KIND/PAIR) against the documented mapping, text provenance, write-effect analysis of the read path, block-join provenance",
@@ -52,7 +52,7 @@ CHECKS = {
     "C19": (True, "whole-module write-effect / ownership analysis over SSA with a field-based heap abstraction (EFF-G, EFF-R, EFF-X, EFF-U, DET)",
             "No instruction outside package initialisers writes package-level state; every write reachable from Render/AppendBlock/RenderHTML/Format/Walk and the exported accessors targets call-owned memory (fresh allocations, scratch-typed per-call state, the documented output parameter); external callees are stateless per table; no goroutine, channel, select, unsafe beyond the audited node conversions, or order-observable map iteration. Covers all interleavings at once because no shared writable location exists.",
             "Go memory/type safety; external callee table (DESIGN.md Appendix C); user callbacks are the caller's"),
-    "C20": (False, "SSA latch, write-guard and who-may-write rules on the format writer, result provenance, write-effect analysis",
+    "C20": (True, "SSA latch, write-guard and who-may-write rules on the format writer, result provenance, write-effect analysis",
             "Structural parts of the first sentence: the error field is a latch, every call reaching the underlying writer is guarded by it and stores its error, only the writer's own methods touch the underlying writer, Format returns the latched error, formatting writes only call-local memory and has no nondeterminism source. The round-trip sentence is behavioural and not decided.",
             "go/ssa dominators; EFF external-callee table"),
 }
